@@ -31,7 +31,7 @@ ASSUMPTIONS = [
     "the lock is tested against commands that take it (every command except those run with --test-skip-lock)",
 ]
 
-TRIGGERS = ["all_missing", "all_rewritten", "zero_size", "parity_short", "parity_deleted", "blocksize", "hashsize", "disk_dropped", "lock",
+TRIGGERS = ["all_missing", "all_rewritten", "zero_size", "parity_short", "parity_deleted", "blocksize", "hashsize", "disk_dropped", "disk_renamed", "lock",
             "control_some_missing", "control_zero_new"]
 
 
@@ -112,6 +112,7 @@ def run_case(case, ctx):
         d = case["a"] % nd
         dn = "d%d" % (d + 1)
         override = []
+        first_args = []
         expect_refuse = True
         undo = None
         if trig in ("all_missing", "control_some_missing"):
@@ -179,6 +180,27 @@ def run_case(case, ctx):
             def undo():
                 w.arr.cfg["hashsize"] = old
                 w.arr.write_conf()
+        elif trig == "disk_renamed":
+            # the disk's line is given another name (same directory, or an unrelated empty one): without usable UUIDs (the
+            # harness runs with --test-skip-device) the recorded disk is simply missing from the configuration, with any number
+            # of data disks
+            if any(x == dn for x in (cfg.get("content") or [])):
+                return Outcome(ok=True, classes=["content on renamed disk"])
+            if cfg.get("fake_uuid"):
+                # with usable UUIDs a renamed disk is recognised and renamed in the content file: legitimate
+                return Outcome(ok=True, classes=["renamed disk recognised by its UUID (legitimate)"])
+            other = None
+            if case["b"] % 2:
+                other = os.path.join(w.arr.root, "unrelated_empty")
+                os.makedirs(other, exist_ok=True)
+                classes.add("renamed disk points to an unrelated empty directory")
+                first_args = ["-E"]   # no override exists for a disk missing from the configuration: --force-empty must not help
+            w.arr.cfg["conf_names"] = {dn: ("renamed%d" % (case["b"] % 5), other)}
+            w.arr.write_conf()
+
+            def undo():
+                w.arr.cfg["conf_names"] = {}
+                w.arr.write_conf()
         elif trig == "disk_dropped":
             if nd < 2:
                 return Outcome(ok=True, classes=["single disk"])
@@ -231,7 +253,7 @@ def run_case(case, ctx):
                 return Outcome(ok=False, why="sync still refused (rc=%d) after the first command ended: %s" % (r3.rc, r3.err[-200:].decode("latin-1")))
             classes.add("lock holder " + first)
         else:
-            r1 = w.cmd("sync")
+            r1 = w.cmd("sync", first_args)
             if r1.timed_out:
                 return Outcome(ok=True, inconclusive=True)
             if expect_refuse:
